@@ -82,6 +82,7 @@ type Evaluator struct {
 	OnInstr  func(in ssa.Instruction)                     // observe every instruction executed
 	MaxSteps int
 	depth    int
+	cur      *frame // frame of the innermost Exec in progress (for Peek/Mem from hooks)
 	entryPhi bool // ValueAtEntry: a phi takes the value of its loop-entry edge(s)
 }
 
@@ -93,6 +94,23 @@ func (e *Evaluator) ValueAtEntry(v ssa.Value) V {
 	defer func() { e.entryPhi = false }()
 	fr := &frame{vals: map[ssa.Value]V{}, mem: map[ssa.Value]V{}}
 	return e.val(fr, v)
+}
+
+// Peek evaluates v in the frame of the Exec in progress (for hooks that need an index or a receiver).
+func (e *Evaluator) Peek(v ssa.Value) V {
+	if e.cur == nil {
+		return unkV
+	}
+	return e.val(e.cur, v)
+}
+
+// Mem returns what the Exec in progress last stored at addr.
+func (e *Evaluator) Mem(addr ssa.Value) (V, bool) {
+	if e.cur == nil {
+		return unkV, false
+	}
+	v, ok := e.cur.mem[addr]
+	return v, ok
 }
 
 type Outcome struct {
@@ -126,6 +144,9 @@ func (e *Evaluator) Exec(fn *ssa.Function, args []V) Outcome {
 		return Outcome{Kind: "undecided", Reason: "no body: " + shortFn(fn)}
 	}
 	fr := &frame{vals: map[ssa.Value]V{}, mem: map[ssa.Value]V{}}
+	saved := e.cur
+	e.cur = fr
+	defer func() { e.cur = saved }()
 	for i, p := range fn.Params {
 		if i < len(args) && args[i].K != vUnknown {
 			fr.vals[p] = args[i]
